@@ -447,9 +447,11 @@ def _fix_ncep_descriptors(descriptors):
                 descriptor.members = _fix_ncep_descriptors(descriptor.members)
                 ret.append(descriptor)
         elif isinstance(descriptor, (FixedReplicationDescriptor, DelayedReplicationDescriptor)):
-            if len(descriptor.members) == 0:
-                assert descriptor.n_items == 1, 'Fix for replication descriptor expects 1 member, got {}'.format(
-                    len(descriptor.members))
+            # Only a replication of exactly one descriptor that is followed by a
+            # descriptor can adopt it. Anything else (e.g. a damaged template that
+            # ends with the replication) is left for the coder to deal with, as
+            # it is when no extra table entries are present.
+            if len(descriptor.members) == 0 and descriptor.n_items == 1 and len(descriptors) > 0:
                 descriptor.members = [descriptors.pop(0)]
             descriptor.members = _fix_ncep_descriptors(descriptor.members)
             ret.append(descriptor)
